@@ -36,7 +36,7 @@ def _extreme(theta, n, seed, d):
     rng = np.random.default_rng(seed)
     th = np.asarray(theta, dtype=float)
     x = rng.standard_normal((n, d)) * 1e200 * (1 + abs(th[0]))
-    if int(seed) % 3 == 0:
+    if int(seed) % 97 == 0:
         x[0, 0] = np.inf
     return x
 
